@@ -379,6 +379,9 @@ func (p *Properties) Decode(pkt byte, b *bytes.Buffer) (n int, err error) {
 	}
 
 	bt := b.Bytes()
+	if n < len(bt) {
+		bt = bt[:n] // a property value must not extend past the declared property length (into the payload)
+	}
 	var k byte
 	for offset := 0; offset < n; {
 		k, offset, err = decodeByte(bt, offset)
